@@ -6,7 +6,7 @@ From J5V.lib Require Import Outcome Json JsonPrint Base64 Civil Decimal.
 From J5V.model Require Import CodecTypes CodecEnc CodecEncSpec CodecEncDec CodecFloatInt.
 From J5V.model Require CodecDecScalar CodecDec CodecDecTree.
 From J5V.proofs Require CodecDecTime CodecDecDecimal.
-From J5V.proofs Require Import CodecEncProofs CodecEncDecProofs CodecEncTotal CodecEncDecTie CodecEncLex CodecEncInner CodecEncRep CodecEncRepTie CodecFloatIntProofs.
+From J5V.proofs Require Import CodecEncProofs CodecEncDecProofs CodecEncTotal CodecEncDecTie CodecEncLex CodecEncInner CodecEncRep CodecEncRepTie CodecFloatIntProofs CodecFloatNonFinite.
 Import ListNotations.
 Local Open Scope N_scope.
 
@@ -380,6 +380,26 @@ Theorem C01_float_laws_on_small_integers : forall is32 neg n, (n < small_bound)%
   exists txt, fmt_small is32 bits = Some txt /\ valid_number txt = true /\ parse_small is32 txt = Some bits.
 Proof. exact float_laws_small. Qed.
 Print Assumptions C01_float_laws_on_small_integers.
+
+(* ---------------------------------------------------------------- non-finite floats, width by width
+   Outside the property's quantifier (finite floats), inside the codec's contract since /repo 5e4d94d:
+   NaN / +Inf / -Inf are written as the quoted words of the protobuf JSON mapping and read back by the
+   decoder's string arm with ParseFloat at the width of the field.  For every non-finite pattern of
+   either width: an infinity reads back as the SAME pattern, a NaN (any payload) as strconv's NaN.
+   Premise: ParseFloat's answers for the three words at each width (taken from strconv on every run by
+   the literal tables of the non-finite-float stream).  A decoder that refuses "Infinity" for a 32-bit
+   field (seeded change C01-H) fails this stream's oracle and the model/implementation comparison. *)
+Theorem C01_nonfinite_float_roundtrip :
+  forall fmt_float parse_float parse_time, nonfinite_parse_ok parse_float ->
+  forall is32 bits, (bits < ftop is32)%N -> float_finite is32 bits = false ->
+    exists J, enc_scalar fmt_float (fkind is32) (VFloat bits) = Ok (print J) /\ wfb J = true /\
+      exists b', dec_scalar parse_float parse_time (fkind is32) J = Ok (Some (VFloat b')) /\
+                 (float_is_inf is32 bits = true -> b' = bits) /\
+                 (float_is_nan is32 bits = true -> float_is_nan is32 b' = true).
+Proof. exact nonfinite_float_roundtrip. Qed.
+Print Assumptions C01_nonfinite_float_roundtrip.
+Example C01_nonfinite_premise_satisfiable : nonfinite_parse_ok inst_nf.
+Proof. exact nonfinite_parse_satisfiable. Qed.
 
 (* ---------------------------------------------------------------- the preconditions, decided *)
 (* EnumSchema.OptionByName inverts OptionByNumber on every enum whose option names are distinct:
